@@ -9,7 +9,7 @@ import json
 d=json.load(open(__import__('os').environ.get('KJ','/tmp/kj.json')))
 for r,c in zip(d['verification_results']['results'], d['cbmc']):
     st=c['cbmc_stats'] or {}
-    print(f"{r['harness_id']:55s} {r['status']:8s} {r['duration_ms']/1000:8.1f}s symex={st.get('runtime_symex_s',0):.1f} solver={st.get('runtime_solver_s',0):.1f} checks={len(r['checks'])}")
+    print(f"{r['harness_id']:55s} {r['status']:8s} {r['duration_ms']/1000:8.1f}s symex={(st.get('runtime_symex_s') or 0):.1f} solver={(st.get('runtime_solver_s') or 0):.1f} checks={len(r['checks'])}")
     for ch in r['checks']:
         if ch['status'] in ('Failure',): print('   ',ch['status'], ch['function'], '|', ch['description'][:120], '|', ch['location'].get('file'), ch['location'].get('line'))
         if ch['category']=='cover' and ch['status']!='Satisfied': print('   cover', ch['status'], ch['description'])
